@@ -28,6 +28,11 @@ def run_shard(ctx):
         cc = 0x17B if t == "Response" else None
         ctx.run_given(st.lists(st.sampled_from(list(arb.LOW)), max_size=24).map(bytes), lambda d, t=t, cc=cc: judge_c06(ctx, L, t, cc, False, d, "per-type"), 6 if q else 40, name=f"type:{t}")
 
+    if not ctx.quick():
+        from .common import fuzz_campaign
+
+        ctx.run_plain(lambda: fuzz_campaign(ctx, "c06", 150000), "libfuzzer")
+
 
 def finalize(merged):
     L = layout()
